@@ -634,3 +634,24 @@ func hbFrame(sys, comp, autopilot byte, custom uint32) []byte {
 	ref.Seal(s, hbLayout.CRCExtra, nil)
 	return ref.Serialize(s)
 }
+
+var closeStuck int32
+
+// safeClose calls Node.Close under a watchdog. A Close that does not return is property C12's business: the
+// scenario that runs into it records an inconclusive verdict and the remaining scenarios of this child are skipped
+// (the stuck node keeps its goroutines and would distort them).
+func safeClose(rep *vh.Report, node *gomavlib.Node) bool {
+	done := make(chan struct{})
+	go func() { node.Close(); close(done) }()
+	select {
+	case <-done:
+		return true
+	case <-time.After(25 * time.Second):
+		atomic.StoreInt32(&closeStuck, 1)
+		rep.Inconclusive("Node.Close did not return within 25 s in a scenario of this property (all timers <= 1 s): see property C12; remaining scenarios skipped")
+		return false
+	}
+}
+
+// aborted reports whether an earlier scenario left a stuck node behind.
+func aborted() bool { return atomic.LoadInt32(&closeStuck) != 0 }
